@@ -28,6 +28,9 @@ UNOPS = {"!": "not_", "+": "positive", "-": "negative", "~": "tilde"}
 
 
 def body_of(src, signature_re, what):
+    # comments may contain braces ("a closing ), ] or } ends the operand"): blank them out first
+    src = re.sub(r"//[^\n]*", "", src)
+    src = re.sub(r"/\*.*?\*/", lambda mm: re.sub(r"[^\n]", " ", mm.group(0)), src, flags=re.S)
     m = re.search(signature_re, src)
     if not m:
         raise TranslateError("%s not found" % what)
